@@ -265,15 +265,18 @@ struct Srv : ISrv
           answer(c);
       });
 
-    if (vh::arg(w, "conth", "0") == "1")
-      srv.request_expect_continue_event([this](weak_conn c, req_type const& r, C const& body)
+    std::string const conth(vh::arg(w, "conth", "0"));
+    if (conth == "1" || conth == "2")
+      srv.request_expect_continue_event([this, conth](weak_conn c, req_type const& r, C const& body)
       {
         line("ev continue " + cname(c) + " " + req_fields(c, r, body));
         if (policy != "deferred")
         {
           std::shared_ptr<conn_type> p(c.lock());
+          // conth=2: the application rejects the expectation with a final response
           if (p)
-            p->send(tx_response(response_status::code::CONTINUE));
+            p->send(tx_response((conth == "2") ? response_status::code::EXPECTATION_FAILED
+                                               : response_status::code::CONTINUE));
         }
       });
 
